@@ -95,6 +95,10 @@ def condHeader (stripped : Line) (kw : String) (i : Nat) : PM Line :=
     | some cs => pure (stripL (cap cs 1))
     | none => synErr i ("<<" ++ kw ++ " statement missing closing >>")
 
+/-- `l[indent:] if l[:indent].strip() == "" else l` -/
+def dropIndent (indent : Nat) (l : Line) : Line :=
+  if (stripL (l.take indent)).isEmpty then l.drop indent else l
+
 def jumpTokBlock (target : Line) : J := .obj [("type", jstr "jump"), ("target", .str target)]
 
 /-- header of a loop line: variable and collection -/
@@ -155,7 +159,8 @@ def condLoop (lines : Lines) (start : Nat) : Nat → Nat → CondSt → PM (Cond
       else if sw st "~ " && has then do
         let s ← s.flushPlain
         let (ls, n) ← liftPy "extract_multiline_expression" (multiline lines.toList i (stmtCode (st.drop 2)))
-        condLoop lines start f (i + n) (s.push (stmtTok (joinNl ls)))
+        -- continuation lines lose the indentation of the statement's own line
+        condLoop lines start f (i + n) (s.push (stmtTok (joinNl (ls.take 1 ++ (ls.drop 1).map (dropIndent (indentOf line))))))
       else if (sw st "<<if " || sw st "@if ") && i != start && has then do
         let s ← s.flushPlain
         let (nested, n) ← extractCond lines f i
@@ -291,7 +296,7 @@ def joinCollect (lines : Lines) (indent : Nat) : Nat → Nat → List Line → L
     if h : i < lines.size then
       let line := lines[i]
       if isJoinBlockTerminator line then (acc.reverse, i)
-      else if (stripL line).isEmpty then joinCollect lines indent f (i + 1) (line :: acc)
+      else if (stripL line).isEmpty || sw (stripL line) "#" then joinCollect lines indent f (i + 1) (line :: acc)
       else if indentOf line ≤ indent then (acc.reverse, i)
       else joinCollect lines indent f (i + 1) (line :: acc)
     else (acc.reverse, i)
